@@ -40,6 +40,10 @@ def ref_lp(A, B, p):
     return float(sum(d ** p for d in diffs)) ** (1.0 / p)
 
 
+def snap(prof):
+    return (tuple(prof.candidates), tuple((b.ranking, b.weight) for b in prof.ballots), prof.total_ballot_wt)
+
+
 def check_lp(ctx, case):
     from votekit.metrics import lp_dist
     from votekit import PreferenceProfile, Ballot
@@ -47,6 +51,7 @@ def check_lp(ctx, case):
     specs = case["profiles"]
     P = [canon.build_profile(s) for s in specs]
     D = [dist(s) for s in specs]
+    snaps = [snap(q) for q in P]
     ctx.count("lp_triples")
     ctx.case(case, nontrivial=D[0] != D[1] and D[1] != D[2] and D[0] != D[2])
     for p in PS:
@@ -95,6 +100,8 @@ def check_lp(ctx, case):
                     ctx.fail(f"lp_dist to a {name} copy of the same distribution is not exactly zero", case,
                              {"p": p, "got": repr(o)[:100]})
                     return
+    if [snap(q) for q in P] != snaps:
+        ctx.fail("lp_dist changed a profile it compared", case, {})
 
 
 def refgraph(n):
@@ -152,6 +159,7 @@ def check_profile_graph(ctx, case):
     cands = spec["cands"]
     n = len(cands)
     prof = canon.build_profile(spec)
+    snap0 = snap(prof)
     has_short = any(len(b["r"]) == n - 1 for b in spec["ballots"])
     ctx.case(case, nontrivial=has_short)
     o = observe(BallotGraph, prof)
@@ -184,6 +192,25 @@ def check_profile_graph(ctx, case):
     N, E = refgraph(n)
     if set(bg.graph.nodes) != N:
         ctx.fail("BallotGraph(profile): node set differs from the ballot graph on n candidates", case, {})
+        return
+    ge = set(frozenset(e) for e in bg.graph.edges if e[0] != e[1])
+    if ge != E or any(e[0] == e[1] for e in bg.graph.edges):
+        ctx.fail("BallotGraph(profile): edges differ from the ballot graph on n candidates", case,
+                 {"extra": len(ge - E), "missing": len(E - ge)})
+        return
+    # the profile is left as it was, and a second graph from the same profile object (after graphs of other profiles were
+    # built in this process) carries the same weights
+    if snap(prof) != snap0:
+        ctx.fail("BallotGraph(profile) changed the profile it was built from", case, {})
+        return
+    o2 = observe(BallotGraph, prof)
+    ctx.count("profile_graphs_built_again")
+    if not o2.ok or {k: v for k, v in o2.value.node_weights.items() if v != 0} != exp or \
+            {k: d["weight"] for k, d in o2.value.graph.nodes(data=True) if d.get("weight")} != exp:
+        ctx.fail("BallotGraph(profile): a second graph built from the same profile object carries other weights", case, {})
+        return
+    if {k: v for k, v in bg.node_weights.items() if v != 0} != exp or {k: d["weight"] for k, d in bg.graph.nodes(data=True) if d.get("weight")} != exp:
+        ctx.fail("BallotGraph(profile): building a second graph changed the first one", case, {})
 
 
 def run(ctx):
